@@ -8,10 +8,10 @@ TRUST = ("trusted: rustc, std, lock_api, once_cell, hashbrown, the vendored Dash
          "the vsched scheduler and the monitors; bounded: small key alphabets, limits <= 4, ttl <= 3 s, depth / preemption bounds as reported in the evidence")
 
 CLAIMS = {
-    "C01": ("seqx+macx", "explicit-state BFS over the three core engines with two versions per key (last store wins, value encodes key) plus bounded-exhaustive history enumeration over 372 generated #[cache]/#[cache_async] functions (full flavour x policy x limit x ttl x memory product) whose values encode function, key and version; every returned value compared with the undecorated twin", "§7 C01"),
+    "C01": ("seqx+macx+shapex+thrx", "explicit-state BFS over the three core engines with two versions per key (last store wins, value encodes key) plus bounded-exhaustive history enumeration over 372 generated #[cache]/#[cache_async] functions (full flavour x policy x limit x ttl x memory product) whose values encode function, key and version; every returned value compared with the undecorated twin; every argument tuple of every signature shape (incl. pattern parameters) must get its own value back; plus every schedule (preemption bound 2/3) and verdict of a hit overlapping a refresh of the same key under the hit-counting policies: the superseded value does not come back", "§7 C01"),
     "C02": ("shapex", "bounded-exhaustive input enumeration: 72 signature shapes (1-5 arguments of integers, floats, bool, char, String, &str, Option, Vec, slices, tuples, nested containers, Debug-derived struct/enum/tuple struct; free functions and &self / self / &mut self methods; sync to_cache_key and async format! generators), "
                       "every argument tuple of the cartesian product of small adversarial domains called twice on an unlimited cache: executions = tuples = listed keys and every call returns its own tuple", "§7 C02"),
-    "C03": ("macx+thrx", "every call sequence (depth 5/6) over 3 keys x 2 functions sharing key strings for all unlimited functions (incl. bodies that leave through return / ?): executions = distinct tuples; plus every schedule (preemption bound 2/3, both rwlock policies) of 2-3 concurrent callers: nothing runs after a storing call returned", "§7 C03"),
+    "C03": ("macx+thrx+shapex", "every call sequence (depth 5/6) over 3 keys x 2 functions sharing key strings for all unlimited functions (incl. bodies that leave through return / ?, functions without arguments): executions = distinct tuples; the same count for every signature shape over its whole argument domain; plus every schedule (preemption bound 2/3, both rwlock policies) of 2-3 concurrent callers: nothing runs after a storing call returned", "§7 C03"),
     "C04": ("seqx+macx+thrx", "explicit-state BFS over the real cache engines (all three flavours x six policies x limits x ttl x memory), every random victim enumerated; "
                     "monitor: size <= limit after every operation and exactly the required number of removals per store; the same monitor on the key listing of generated functions; plus every schedule (preemption bound 2/3) of two or three concurrent stores: the limit holds once every caller has returned", "§7 C04"),
     "C05": ("seqx+macx+thrx", "explicit-state BFS with values of seven owned-heap types and four footprints (one larger than the bound); monitor computes footprints with its own rule and "
